@@ -126,7 +126,7 @@ class Ctx:
 
     # ---------------------------------------------------------------------- TLC
     def tlc(self, module, cfg, env=None, workers=1, timeout=1200, simulate=None, depth=None,
-            extra=(), heap="3g", coverage=False, deadlock=False, tag=None):
+            extra=(), heap="3g", coverage=False, deadlock=False, tag=None, cfg_text=None):
         """Run TLC on spec/<module>.tla with spec/<cfg> in a private scratch copy.
         Returns dict(out, printed(list of raw PrintT lines), states, distinct, ok, violated, rc)."""
         tag = tag or ("%s-%s-%d" % (module, os.path.basename(cfg).replace(".cfg", ""), int(time.time() * 1000) % 100000000))
@@ -137,6 +137,8 @@ class Ctx:
             for f in files:
                 if f.endswith(".tla") or f.endswith(".cfg"):
                     shutil.copyfile(os.path.join(root, f), os.path.join(d, f))
+        if cfg_text is not None:
+            open(os.path.join(d, os.path.basename(cfg)), "w").write(cfg_text)
         e = dict(os.environ)
         e["JAVA_TOOL_OPTIONS"] = "-Xss512m -Xmx%s" % heap
         if env:
